@@ -12,7 +12,7 @@ CONSTANTS MCW,        \* [pools, fl]  the cluster and the simulator flags
           MCGraphs,   \* static graph records
           MCInit,     \* initial dynamic record per task
           SchedRt,    \* simulated scheduler runtime
-          Frontier,   \* "released" | "all": which tasks the policy is offered
+          Frontier,   \* [la |-> lookahead, rtg |-> release_taskgraphs, retract |-> retract_schedules] of the policy
           Delays,     \* set of placement delays the policy may choose (relative to now + SchedRt)
           MaxInvocations \* bound on scheduler invocations that return decisions (state-space bound)
 
@@ -36,11 +36,8 @@ InitS ==
 
 Init == S = InitS /\ phase = "run" /\ ninv = 0
 
-\* what the policy is offered
-Offered(St) ==
-    SelectSeq([t \in 1..NT(St) |-> t], LAMBDA t :
-        \/ (St.ts[t].st = RELEASED /\ St.ts[t].rel <= St.now)
-        \/ (Frontier = "all" /\ St.ts[t].st = VIRTUAL /\ St.tk[t].g \in Range(St.wl)))
+\* what the policy is offered: the transcription of get_schedulable_tasks with the policy's options
+Offered(St) == Schedulable(St, St.now, Frontier.la, Frontier.retract, Frontier.rtg)
 
 \* the answers the policy may give for one task: 0 = no answer
 Options(St, t) ==
@@ -53,10 +50,15 @@ Options(St, t) ==
       tm |-> St.now + SchedRt + d]
         : p \in 1..NPl, k \in 1..Len(St.tk[t].strats), d \in Delays}
 
+\* a SCHEDULED task whose pending placement fires before this answer is applied is left alone (answering
+\* for a task that has started is outside every policy's contract, C10)
+OptionsFor(St, t) ==
+    IF St.ts[t].st = SCHEDULED /\ St.ts[t].plan.tm <= St.now + SchedRt
+    THEN {o \in Options(St, t) : o.kind = 0} ELSE Options(St, t)
 RECURSIVE AnsSeqs(_, _)
 AnsSeqs(St, off) ==
     IF off = <<>> THEN {<<>>}
-    ELSE {(IF o.kind = 0 THEN <<>> ELSE <<o>>) \o rest : o \in Options(St, Head(off)), rest \in AnsSeqs(St, Tail(off))}
+    ELSE {(IF o.kind = 0 THEN <<>> ELSE <<o>>) \o rest : o \in OptionsFor(St, Head(off)), rest \in AnsSeqs(St, Tail(off))}
 Answers(St) ==
     LET off == Offered(St) IN
     IF ninv >= MaxInvocations \/ off = <<>> THEN {<<>>} ELSE AnsSeqs(St, off)
@@ -107,6 +109,12 @@ MC_C03 == C03_HoldUntilDue(S) /\ C03_CompletedTiming(S) /\ C03_ExactCompletion(M
 MC_C04 == C04_IdleMeansFull(MCW, S)
 MC_C06 == C06_StarvedNeverRuns(S) /\ C06_CancelClosure(S)
 MC_C07 == C07_OneBranch(S)
+MC_C18 ==
+    \A la \in 0..2, rtg \in BOOLEAN, ret \in BOOLEAN :
+        LET res == Schedulable(S, S.now, la, ret, rtg) IN
+        /\ C18_NoStarvation(S, S.now, res) /\ C18_NoDead(S, res) /\ C18_NoDuplicates(res)
+        /\ C18_ScheduledOnlyIfRetract(S, res, ret, FALSE) /\ C18_RunningOnlyIfPreempt(S, res, FALSE)
+        /\ C18_Monotone(S, S.now, la, ret)
 MC_C08 == C08_CancelCounter(S) /\ (phase = "ended" => C08_Counters(S))
 MC_C05_End == phase = "ended" => C05_NoPrematureEnd(MCW, S)
 MC_NoCrash == phase # "crashed"
